@@ -16,6 +16,7 @@
 
 #include <assert.h>
 #include <inttypes.h>
+#include <limits.h>
 #include <string.h>
 #include <stdbool.h>
 
@@ -146,12 +147,19 @@ Base64encode(char *encoded, const char *string, int len)
 static char *
 ws_gen_accept_key(const char *ws_key, char out[32])
 {
-	char buf[1024];
+	char *buf;
 	char digest[20];
+	size_t key_len = strlen(ws_key);
+	size_t len = key_len + sizeof(WS_UUID) - 1;
 
-	snprintf(buf, sizeof(buf), "%s" WS_UUID, ws_key);
+	/* the key comes from the client and is not bounded in length */
+	if (len > INT_MAX || (buf = mm_malloc(len + 1)) == NULL)
+		return NULL;
+	memcpy(buf, ws_key, key_len);
+	memcpy(buf + key_len, WS_UUID, sizeof(WS_UUID));
 
-	builtin_SHA1(digest, buf, strlen(buf));
+	builtin_SHA1(digest, buf, (int)len);
+	mm_free(buf);
 	Base64encode(out, digest, sizeof(digest));
 	return out;
 }
@@ -379,7 +387,7 @@ evws_new_session(
 {
 	struct evws_connection *evws = NULL;
 	struct evkeyvalq *in_hdrs;
-	const char *upgrade, *connection, *ws_key, *ws_protocol;
+	const char *upgrade, *connection, *ws_key, *ws_protocol, *accept_key;
 	struct evkeyvalq *out_hdrs;
 	struct evhttp_connection *evcon;
 
@@ -396,12 +404,15 @@ evws_new_session(
 	if (ws_key == NULL)
 		goto error;
 
+	accept_key = ws_gen_accept_key(ws_key, (char[32]){0});
+	if (accept_key == NULL)
+		goto error;
+
 	out_hdrs = evhttp_request_get_output_headers(req);
 	evhttp_add_header(out_hdrs, "Upgrade", "websocket");
 	evhttp_add_header(out_hdrs, "Connection", "Upgrade");
 
-	evhttp_add_header(out_hdrs, "Sec-WebSocket-Accept",
-		ws_gen_accept_key(ws_key, (char[32]){0}));
+	evhttp_add_header(out_hdrs, "Sec-WebSocket-Accept", accept_key);
 
 	ws_protocol = evhttp_find_header(in_hdrs, "Sec-WebSocket-Protocol");
 	if (ws_protocol != NULL)
